@@ -86,3 +86,19 @@ func ipToSockaddr(family int, ip net.IP, port int, zone string) (unix.Sockaddr, 
 	}
 	return nil, &net.AddrError{Err: "invalid address family", Addr: ip.String()}
 }
+
+// boundPort returns the port a socket is actually bound to, it differs from
+// the requested one when the caller asked for port 0 and the kernel picked one.
+func boundPort(fd int) (int, bool) {
+	sa, err := unix.Getsockname(fd)
+	if err != nil {
+		return 0, false
+	}
+	switch sa := sa.(type) {
+	case *unix.SockaddrInet4:
+		return sa.Port, true
+	case *unix.SockaddrInet6:
+		return sa.Port, true
+	}
+	return 0, false
+}
